@@ -22,10 +22,10 @@ Ev == Traces[tid].events
 ReqOf(t) == LET r == Traces[t].req IN
   [ pkg |-> <<r.pkg[1], r.pkg[2], r.pkg[3]>>, files |-> r.files, svcs |-> r.svcs, kinds |-> r.kinds, dep |-> r.dep, items |-> r.items, extra |-> r.extra ]
 ResetFor(t) == /\ req' = ReqOf(t) /\ stage' = "start" /\ opts' = None /\ package' = <<>> /\ naming' = None /\ protos' = <<>>
-               /\ todo' = <<>> /\ emitted' = <<>> /\ features' = {}
+               /\ todo' = <<>> /\ emitted' = <<>> /\ features' = {} /\ subs' = <<>>
 TInit == /\ tid = 1 /\ l = 1 /\ TLCSet(1, 0) /\ TLCSet(2, <<0, 0>>)
          /\ req = ReqOf(1) /\ stage = "start" /\ opts = None /\ package = <<>> /\ naming = None /\ protos = <<>>
-         /\ todo = <<>> /\ emitted = <<>> /\ features = {}
+         /\ todo = <<>> /\ emitted = <<>> /\ features = {} /\ subs = <<>>
 
 IsEvent(e) == tid <= N /\ l <= Len(Ev) /\ Ev[l].ev = e /\ l' = l + 1 /\ tid' = tid
 TOptions == IsEvent("Options") /\ ParseOptions
@@ -35,18 +35,18 @@ TPackage == IsEvent("Package") /\ SelectPackage /\ package' = Ev[l].package
 TNaming  == IsEvent("Naming") /\ BuildNaming
             /\ naming' = [ns |-> Ev[l].ns, name |-> Ev[l].name, version |-> Ev[l].version, versioned |-> Ev[l].versioned]
 TProtos  == IsEvent("Protos") /\ LoadProtos
-            /\ {protos'[i].mod : i \in {j \in 1..Len(protos') : protos'[j].target}} = Range(Ev[l].targets)
-            /\ Len(Ev[l].targets) = Len(req.files)
+            /\ {protos'[i].mod : i \in {j \in 1..Len(protos') : protos'[j].target}} \cup {subs'[i].mod : i \in 1..Len(subs')} = Range(Ev[l].targets)
+            /\ Len(Ev[l].targets) = Len(req.files) + Len(subs')
 TFile    == /\ IsEvent("File") /\ stage = "render"
             /\ Allowed(Ev[l].name)
             /\ emitted' = IF Ev[l].name \in Emitted THEN emitted ELSE Append(emitted, Ev[l].name)
-            /\ UNCHANGED <<req, stage, opts, package, naming, protos, todo, features>>
+            /\ UNCHANGED <<req, stage, opts, package, naming, protos, todo, features, subs>>
 TResponse == /\ IsEvent("Response") /\ stage = "render"
              /\ Required \subseteq Emitted
              /\ Ev[l].lost = 0                             \* every rendered File is in the response (nothing merged away)
              /\ Ev[l].proto3_optional
              /\ features' = {"PROTO3_OPTIONAL"} /\ stage' = "done"
-             /\ UNCHANGED <<req, opts, package, naming, protos, todo, emitted>>
+             /\ UNCHANGED <<req, opts, package, naming, protos, todo, emitted, subs>>
 TNextTrace == /\ tid <= N /\ l = Len(Ev) + 1 /\ stage = "done"
               /\ TLCSet(1, tid)
               /\ tid' = tid + 1 /\ l' = 1
@@ -57,6 +57,6 @@ Progress == TLCSet(2, <<tid, l>>)
 Accepted == PrintT(<<"ACCEPTED", TLCGet(1)>>) /\ PrintT(<<"REACHED", TLCGet(2)>>) /\ TLCGet(1) = N
 \* invariants of Pipeline that make sense on a partially rendered response
 TInv_InitPy == stage = "done" => \A n \in Emitted : (Under(Root, n) /\ IsPy(n)) => \A d \in DirsOf(n) : d \o <<"__init__.py">> \in Emitted
-TInv_TypesExact == stage = "done" => Cardinality(TypesModules) = Len(req.files)
+TInv_TypesExact == stage = "done" => Cardinality(TypesModules) = Len(req.files) + Len(subs)
 TInv_ServicesExact == stage = "done" => Cardinality(ServicePkgs) = Len(req.svcs)
 =============================================================================
